@@ -19,7 +19,7 @@ def rows():
         mech = ", ".join(x.split("  (")[0] for x in r.get("mechanisms", [])[:2])
         out.append({"name": m["name"], "summary": (m.get("summary") or "").replace("\n", " ").replace("|", "/"),
                     "needs": (m.get("needs_to_manifest") or "").replace("\n", " ").replace("|", "/"),
-                    "verdict": r.get("verdict"), "mech": mech, "in_repo": (r2 or {}).get("verdict")})
+                    "verdict": (r.get("verdict") or "") + (" (" + r["tier"] + ")" if r.get("tier") else ""), "mech": mech, "in_repo": (r2 or {}).get("verdict")})
     return out
 
 
@@ -42,7 +42,7 @@ def main():
     else:
         s = s.rstrip("\n") + "\n\n" + block + "\n"
     p.write_text(s)
-    caught = sum(1 for r in rs if r["verdict"] == "CAUGHT")
+    caught = sum(1 for r in rs if str(r["verdict"]).startswith("CAUGHT"))
     print(f"{caught} of {len(rs)} caught")
 
 
